@@ -150,6 +150,9 @@ def translate(rec, want_debug=False):
                     r, w = X86_RW_FROM_SDM[(n.get("i"), k)]
                 if w and not r:
                     covered = info["wb"] + info["eb"]
+                    if op["g"] == 0 and F.arch in ("x64", "a64"):
+                        # ISA fact, not asmjit's RW info: a 32-bit GP write zero-extends to 64 bits; 8/16-bit writes do not
+                        covered = 8 if reg_size(op) >= 4 else reg_size(op)
                     if info["wlo"] != 0 or covered < min(vsz[op["id"]], 64):
                         r = True        # partial write = read-modify-write of the same virtual register
                 res.append(("reg", k, op["id"], r, w))
@@ -182,16 +185,18 @@ def translate(rec, want_debug=False):
             immops = [o for o in ops if o["k"] == "i"]
             others = [o for o in ops if o["k"] not in ("r", "i")]
             full = all(reg_size(o) >= min(vsz[v], 64) or (o["g"] == 0 and reg_size(o) == 4) for o in regops)
+            # value-preserving only if no operand is a 32-bit view of a wider GP register (that write zero-extends)
+            keeps = not any(o["g"] == 0 and reg_size(o) == 4 and vsz[v] > 4 for o in regops) or nm == "xchg"
             if not others and len(regops) == len(res):
                 if len(regops) >= 2 and not immops and X86_WO_SAME(nm) and full:
                     res = [(a[0], a[1], a[2], False, a[4]) for a in res]
-                elif len(regops) >= 2 and not immops and X86_RO_SAME(nm):
+                elif len(regops) >= 2 and not immops and X86_RO_SAME(nm) and keeps:
                     res = [(a[0], a[1], a[2], a[3], False) for a in res]
                 elif len(regops) == 1 and len(immops) == 1:
                     iv = immops[0]["v"]
                     if nm == "or" and full and iv in (-1, 0xFFFFFFFF, 0xFFFF if reg_size(regops[0]) == 2 else -1):
                         res = [(a[0], a[1], a[2], False, a[4]) for a in res]
-                    elif (nm in X86_RO_IMM0 and iv == 0 and nm != "and") or (nm == "and" and iv == -1):
+                    elif keeps and ((nm in X86_RO_IMM0 and iv == 0 and nm != "and") or (nm == "and" and iv == -1)):
                         res = [(a[0], a[1], a[2], a[3], False) for a in res]
         return res
 
@@ -443,6 +448,15 @@ def translate(rec, want_debug=False):
                         if c is None or c[0] == "indexed":
                             raise Unsupported("register operand became a non-stack memory operand")
                         l = F.cell(c[0], c[1])
+                        bsz = reg_size(bops[k])
+                        if w and bops[k]["g"] == 0 and bsz == 4 and vsz[v] > 4 and F.arch in ("x64", "a64"):
+                            # the 32-bit register write would have cleared the upper half; the 32-bit memory write keeps it:
+                            # the cell no longer holds the register's value (it is read first if the operand is also read)
+                            if r and v in md:
+                                reads.append([l, v])
+                            writes.append([F.loc(("lost", 0, 0)), v])
+                            clob.append(l)
+                            continue
                     else:
                         raise Unsupported("register operand became " + aop["k"])
                 else:
